@@ -171,7 +171,11 @@ func sendToMembers(ctx context.Context, logger log.Logger, msgc chan interface{}
 }
 
 func askMembers(ctx context.Context, logger log.Logger, bufToNode chan interface{}, numOfResp, reqTpe int, sessionID string) (out chan []interface{}) {
-	out = make(chan []interface{})
+	// capacity 1: Loop hands the collected messages over without waiting for the consuming
+	// stage. With an unbuffered channel Loop blocked inside handlePeerMsg whenever a later
+	// batch (all responses) was complete before the stage of an earlier one (deals, public
+	// keys) had run, and could then never deliver what that earlier stage was waiting for.
+	out = make(chan []interface{}, 1)
 	go func() {
 		defer fmt.Println("4) Close askMembers Pipe ")
 		defer logger.TimeTrack(time.Now(), "askMembers", map[string]interface{}{"GroupID": sessionID, "Topic": "Grouping"})
